@@ -19,6 +19,7 @@ structure PCtx where
   loc : String → Option Nat         -- word address of each variable in scope
   consts : List (Int × String)      -- the final constant pool
   nlocals : Nat                     -- frame offsets below this hold local variables
+  link : Word                       -- the return address stored in the link slot `sp + S`
 
 def PCtx.S (K : PCtx) : Nat := (frameOf K.out K.ctx.frame).size
 /-- Address of the frame slot with (non-negative) frame offset `k`. -/
@@ -27,12 +28,10 @@ def PCtx.low (K : PCtx) (c : Code) : List Dir := lowerCode K.out c
 
 structure PCtx.WF (K : PCtx) : Prop where
   nodup : (labelNames K.env.ds).Nodup
-  var_global : ∀ n sym, K.ctx.tbl.lookup K.ctx.scope n = .ok sym → sym.scope = "" →
-    ∃ j k, K.env.ds[j]? = some (.label k sym.globalLabel) ∧ K.env.addr j % 4 = 0 ∧
-      K.loc n = some (K.env.addr j / 4)
-  var_local : ∀ n sym, K.ctx.tbl.lookup K.ctx.scope n = .ok sym → sym.scope ≠ "" →
-    sym.frame = K.ctx.frame ∧
-    ∃ a : Nat, (a : Int) = (K.sp : Int) + (K.S : Int) - 1 + sym.stackOffset ∧ K.loc n = some a
+  var_global : ∀ n sym a, K.ctx.tbl.lookup K.ctx.scope n = .ok sym → sym.scope = "" → K.loc n = some a →
+    ∃ j k, K.env.ds[j]? = some (.label k sym.globalLabel) ∧ K.env.addr j % 4 = 0 ∧ a = K.env.addr j / 4
+  var_local : ∀ n sym (a : Nat), K.ctx.tbl.lookup K.ctx.scope n = .ok sym → sym.scope ≠ "" → K.loc n = some a →
+    sym.frame = K.ctx.frame ∧ (a : Int) = (K.sp : Int) + (K.S : Int) - 1 + sym.stackOffset
   const_lbl : ∀ v l, (v, l) ∈ K.consts →
     ∃ j k, K.env.ds[j]? = some (.label k l) ∧ K.env.addr j % 4 = 0 ∧ K.env.addr j / 4 < K.sp
   slot_ok : ∀ k, k < K.S → K.slot k < memWords ∧ K.env.isCode (K.slot k) = false
@@ -51,6 +50,10 @@ theorem ValBound.read {xc : X.Ctx} {σ : X.St} {n : String} {w : Word} (h : ValB
   · rw [h]
   · rw [h1, h2]
 
+/-- The name `n` denotes a variable (a local one, or a global one that is not hidden). -/
+def IsVar (xc : X.Ctx) (σ : X.St) (n : String) : Prop :=
+  (∃ o, σ.locals.lookup n = some (.var o)) ∨ (σ.locals.lookup n = none ∧ xc.genv.lookup n = some .var)
+
 /-- The machine memory represents the source state. -/
 structure Rep (K : PCtx) (σ : X.St) (mem : Mem) : Prop where
   sp : mem.read 1 = BitVec.ofNat 32 K.sp
@@ -59,13 +62,16 @@ structure Rep (K : PCtx) (σ : X.St) (mem : Mem) : Prop where
     ∃ a, K.loc n = some a ∧ a < memWords ∧ mem.read a = w
   consts : ∀ v l j k, (v, l) ∈ K.consts → K.env.ds[j]? = some (.label k l) →
     mem.read (K.env.addr j / 4) = IAm.W v
+  locs : ∀ n, IsVar K.xc σ n → ∃ a, K.loc n = some a
+  link : mem.read (K.sp + K.S) = K.link
 
 theorem Rep.valsOk {K : PCtx} {σ : X.St} {mem : Mem} (h : Rep K σ mem) : ValsOk K.ρ K.xc σ :=
   fun n w hn => (h.vals n w hn).read
 
 theorem Rep.same {K : PCtx} {σ σ' : X.St} {mem : Mem} (h : Rep K σ mem) (hs : SameVars σ σ') : Rep K σ' mem :=
   ⟨h.sp, fun n w hn => by have := h.vals n w hn; unfold ValBound at this ⊢; rw [hs.2.1]; exact this,
-   fun n w hn hr => h.vars n w hn (by rw [← readName_same K.xc σ σ' n hs]; exact hr), h.consts⟩
+   fun n w hn hr => h.vars n w hn (by rw [← readName_same K.xc σ σ' n hs]; exact hr), h.consts,
+   fun n hv => h.locs n (by unfold IsVar at hv ⊢; rw [← hs.2.1]; exact hv), h.link⟩
 
 /-- Memory changed at most in the frame slots with offsets in `[lo, hi)`. -/
 def Frm (K : PCtx) (lo hi : Nat) (mem mem' : Mem) : Prop :=
@@ -87,7 +93,9 @@ theorem Rep.frame {K : PCtx} (wf : K.WF) {σ : X.St} {mem mem' : Mem} {lo hi : N
     intro k h1 h2
     unfold PCtx.slot
     omega
-  refine ⟨?_, h.vals, ?_, ?_⟩
+  refine ⟨?_, h.vals, ?_, ?_, h.locs, ?_⟩
+  rotate_left 3
+  · rw [key (K.sp + K.S) (Or.inr (by omega))]; exact h.link
   · rw [key 1 (Or.inl (by have := wf.sp_ge; omega))]; exact h.sp
   · intro n w hn hr
     obtain ⟨a, ha, hlt, hv⟩ := h.vars n w hn hr
@@ -116,6 +124,11 @@ theorem ld_one (mem : Mem) : Isa.ld mem (IAm.W 1) = some (mem.read 1) := by
   have : IAm.W 1 = BitVec.ofNat 32 1 := by decide
   rw [this]
   exact ld_ofNat mem 1 (by unfold memWords; omega)
+
+theorem ofNat_toNat_ne_one (n : Nat) (h2 : 2 ≤ n) (hlt : n < memWords) : (BitVec.ofNat 32 n).toNat ≠ 1 := by
+  simp only [BitVec.toNat_ofNat]
+  unfold memWords at hlt
+  omega
 
 theorem store_ofNat (env : Env) (mem : Mem) (n : Nat) (v : Word) (h : n < memWords) (hc : env.isCode n = false) :
     IAm.store env mem (BitVec.ofNat 32 n) v = some (mem.write n v) := by
@@ -173,9 +186,7 @@ theorem exec_genVar (K : PCtx) (wf : K.WF) (reg : Reg) (n : String) (sym : Symbo
       (cfg (i + (K.low (genVar reg sym)).length) (match reg with | .A => mem.read ad | .B => a)
         (match reg with | .A => b | .B => mem.read ad) mem) io := by
   by_cases hs : sym.scope = ""
-  · obtain ⟨j, k, hd, hal, hloc'⟩ := wf.var_global n sym hl hs
-    rw [hloc] at hloc'
-    simp only [Option.some.injEq] at hloc'
+  · obtain ⟨j, k, hd, hal, hloc'⟩ := wf.var_global n sym ad hl hs hloc
     have hli := labelIdx_of_nodup _ _ _ _ wf.nodup hd
     have hld : Isa.ld mem (BitVec.ofNat 32 (K.env.addr j / 4)) = some (mem.read ad) := by
       rw [← hloc', ld_ofNat _ _ hlt]
@@ -190,10 +201,7 @@ theorem exec_genVar (K : PCtx) (wf : K.WF) (reg : Reg) (n : String) (sym : Symbo
       apply Steps.one
       have := Step.ldbmL (env := K.env) (cfg i a b mem) io _ j _ hat.head hli hal hld
       simpa using this
-  · obtain ⟨hfr, ad', hadr, hloc'⟩ := wf.var_local n sym hl hs
-    rw [hloc] at hloc'
-    simp only [Option.some.injEq] at hloc'
-    subst hloc'
+  · obtain ⟨hfr, hadr⟩ := wf.var_local n sym ad hl hs hloc
     have hS : (frameOf K.out sym.frame).size = K.S := by rw [hfr]; rfl
     have hsl := slot_addr K.sp K.S sym.stackOffset ad hadr
     cases reg with
@@ -344,8 +352,11 @@ theorem exec_operands (K : PCtx) (wf : K.WF) (l' r' : AExpr) (vl vr : Word) (σ 
     have hst : IAm.store K.env mem1 (mem1.read 1 + IAm.W ((K.S : Int) - 1 + -(gs1.offset : Int))) vr
         = some (mem1.write (K.slot gs1.offset) vr) := by
       rw [rep1.sp, hadr]; exact store_ofNat _ _ _ _ hsl1 hsl2
+    have hne1 : (mem1.read 1 + IAm.W ((K.S : Int) - 1 + -(gs1.offset : Int))).toNat ≠ 1 := by
+      rw [rep1.sp, hadr]
+      exact ofNat_toNat_ne_one _ (by have := wf.sp_ge; unfold PCtx.slot; omega) hsl1
     have sB := Step.stai (env := K.env) (cfg (i + (K.low cr).length + 1) vr (mem1.read 1) mem1) io _ _
-      hat'.tail.head hst
+      hat'.tail.head hst hne1
     -- memory after the save still represents σ
     have frm2 : Frm K gs1.offset (gs1.offset + 1) mem1 (mem1.write (K.slot gs1.offset) vr) := by
       intro ad had
